@@ -4,6 +4,7 @@
    and the re-encode comparison), Model/C26_Zone.v (zone tables, Location.lookup, time.Date's rule). *)
 From Coq Require Import List ZArith.
 Require Import MTX.Lib.Civil MTX.Model.C26_RecPath MTX.Proofs.C26_RecPath MTX.Model.C26_Zone MTX.Proofs.C26_Zone.
+Require Import MTX.Model.C26_Finder MTX.Proofs.C26_Finder.
 Import ListNotations.
 Local Open Scope Z_scope.
 
@@ -225,3 +226,35 @@ Example C26_example :
   decode 0 f_zone (encode_go f_zone [97;47;98] t) = Some ([97;47;98], 1704099600, 123456000) /\
   decode 3600 f_default (encode_go f_default [97;47;98] t ++ [46;98;97;107]) = None.
 Proof. vm_compute. repeat split. Qed.
+
+
+(* ------------------------------------------------------------------ the finder (segment.go): which names it matches against *)
+
+(* FindSegments / fixedPathHasSegments substitute %path FIRST and make the result absolute and clean AFTERWARDS
+   (finder_format). For every record path, extension, working directory and every path name IsValidPathName
+   accepts, the format then depends on the name only through its non-empty elements: the only thing Clean
+   changes in a valid name (runs of slashes: site//cam1) is changed in the format exactly as the kernel and
+   WalkDir change it in the name of the recorder's file. *)
+Theorem C26_finder_format_slash_runs : forall cwd f ext p,
+  path_name_valid p = true -> finder_format cwd f ext p = finder_format cwd f ext (squeeze p).
+Proof. exact finder_format_squeeze. Qed.
+Print Assumptions C26_finder_format_slash_runs.
+
+(* hence, whatever is on disk, a valid name and its clean form are answered with the same segments *)
+Theorem C26_finder_alias : forall L cwd f ext p files,
+  path_name_valid p = true -> find_model L cwd f ext p files = find_model L cwd f ext (squeeze p) files.
+Proof. exact find_model_squeeze. Qed.
+Print Assumptions C26_finder_alias.
+
+(* the other order (Abs/Clean on the raw record path, the name inserted afterwards) is refuted: under /srv, the
+   default record path and the valid name site//cam1, the file the recorder wrote at 2024-03-09T17:45:12.250731Z is
+   found by the code's order, not found by the clean-first order, and the clean-first order finds it only when
+   asked for site/cam1 *)
+Theorem C26_finder_cleanfirst_refuted :
+  path_name_valid w_name = true /\
+  decode 0 (finder_format w_cwd w_fmt w_ext w_name) (walked w_cwd w_fmt w_ext w_name w_t) = Some ([], 1710006312, 250731000) /\
+  decode 0 (finder_format_cleanfirst w_cwd w_fmt w_ext w_name) (walked w_cwd w_fmt w_ext w_name w_t) = None /\
+  decode 0 (finder_format_cleanfirst w_cwd w_fmt w_ext (squeeze w_name)) (walked w_cwd w_fmt w_ext w_name w_t)
+    = Some ([], 1710006312, 250731000).
+Proof. exact cleanfirst_refuted. Qed.
+Print Assumptions C26_finder_cleanfirst_refuted.
